@@ -480,6 +480,13 @@ func RunC03(d *Driver) *Report {
 		}
 	}
 	r.Rule = fmt.Sprintf("lexer: %d base texts (all evy blocks of docs/*.md, a quarter of the playground samples, generated programs, hand-written fragments incl. NUL, CR, invalid UTF-8, non-ASCII letters and digits), a fifth of their mutations and %d random rune strings: every real token's offset/line/column is compared with the specification of a position (counting from the start of the text) and the whole token list with the Lean lexer model. Parser: every base text, every prefix at a token boundary and %d per-text mutations (token deletion, insertion, substitution, double mistakes, cut-outs; %d texts in all) must return within 10 s, without a Go panic, with a program or with located errors whose positions exist and are token starts; %d programs with one known mistake at a known place must report it at that character. Non-trivial = distinct text", len(bases), nrand, budget, nmut, len(c03Located()))
+	// block structure: the line-level parser model (Model/Blocks.lean) on well-nested and broken line sequences
+	nblk := 1500
+	if Thorough() {
+		nblk = 30000
+	}
+	nb := blocksStream(r, d, rng, nblk)
+	r.Rule += fmt.Sprintf("; block structure: %d programs at the level of lines (statement, comment, if / else if / else / while / for / func / on / end; random well-nested trees of depth <= 3, half of them with one or two lines deleted, inserted or exchanged, source indented at random): accepted or rejected as Model/Blocks.lean says, the skeleton of the real syntax tree equal to the model's tree, and the indentation of the formatted text equal to the model's block levels", nb)
 	r.DriverCalls = d.N
 	return r
 }
